@@ -6,14 +6,15 @@ Require Import MV.Cfg.Skel MV.Cfg.SkelCheck MV.Flow.SetExpr MV.Flow.Dataflow MV.
 
 Definition rd_table : table :=
   mktable rd_scoped_in rd_scoped_out rd_ignored_in rd_ignored_out rd_gen_names
-          true (negb rd_join_over_prev) (negb rd_join_reads_out).
+          true (negb rd_join_over_prev) (negb rd_join_reads_out) rd_edge_sensitive.
 
 Record rd_case : Type := mkrdcase {
   rc_idx : nat; rc_fn : fn; rc_edges : list edge; rc_nodes : list rnode;
   rc_names : list nanno; rc_defined : list danno }.
 
 (* 0 ok | 1 graph | 2 not the fixed point of the generated equations | 3 soundness inclusions
-   | 4 DEFINITIONS on names | 5 DEFINED_VARS_IN *)
+   | 4 DEFINITIONS on names | 5 DEFINED_VARS_IN
+   | 7 only: the edge-sensitive (unguarded) inclusions fail: a for header kills its target on the exit edge (known finding) *)
 Definition rd_code (c : rd_case) : nat :=
   let E := rc_edges c in
   let ns := rc_nodes c in
@@ -24,6 +25,7 @@ Definition rd_code (c : rd_case) : nat :=
   else if negb (rd_sound E ns entry R) then 3
   else if negb (forallb (rd_nanno_ok rd_name_load_reads_in ns) (rc_names c)) then 4
   else if negb (forallb (rd_danno_ok E ns) (rc_defined c)) then 5
+  else if negb (rd_sound_e E ns entry R) then 7
   else 0.
 
 Definition rd_failing (cs : list rd_case) : list nat :=
